@@ -102,3 +102,29 @@ def _pattern_ok(t) -> bool:
             return False
         todo.extend(x.children())
     return True
+
+
+def mimic_variants(prop: str):
+    """The wrapper objects of the helper decorators keep their state (`_function`, `_entries`, `_cached`, `_timeout` ...) in
+    their instance dict and call `mimic_function(function, within=self)` last in `__init__`: that their state survives is
+    the frame clause of mimic (C18-P4), re-exported under every property whose wrapper relies on it."""
+    from .C02 import variant
+    from .C18 import MimicSync
+    keep = lambda n: "not-overwritten" in n or "wrapper-itself-is-returned" in n or "never-raises" in n      # noqa: E731
+    return [variant(MimicSync, prop, keep)]
+
+
+def attr_write_mark(it) -> int:
+    """position in the log of attribute stores (Interp.set_attr): stores made later are the ones a frame clause inspects"""
+    return len(it.st.ghost.get("$attr_writes", []))
+
+
+def wrapper_frame(it, obj, mark: int, what: str = "call") -> None:
+    """Frame clause shared by the helper wrappers: one wrapper object serves every call of the decorated function, also
+    overlapping ones (several tasks, recursion through the wrapper, several event loops one after another).  A call that
+    stores into an attribute of that shared object makes the calls depend on each other, which none of the per-call
+    contracts accounts for (they assume the wrapper's attributes are what `__init__` left).  Kind `frame`: a failure
+    is *undecided* and the native stand-in (which runs overlapping calls through one wrapper) decides."""
+    writes = sorted({n for (o, n) in it.st.ghost.get("$attr_writes", [])[mark:] if o.eq(obj)})
+    it.st.check(f"frame:a-{what}-stores-into-no-attribute-of-the-shared-wrapper-object(overlapping-calls-through-one-wrapper-"
+                "are-independent)", z3.BoolVal(not writes), kind="frame", note="attributes written: " + ", ".join(writes))
